@@ -165,6 +165,10 @@ def run_harness(h, params, tier, seed):
                 core._CUR[0] = ctx
                 try:
                     model = solve.path_model(ctx, timeout_s=opts.get("twin_timeout", 8.0))
+                    if model is None and res["paths_reachable"] == 0:
+                        # no witness yet for this harness: on a loaded machine the twin query can time out; ask once more with a long budget
+                        # before the harness is declared vacuous (an unsatisfiable path answers at once, so this costs nothing then)
+                        model = solve.path_model(ctx, timeout_s=5.0 * opts.get("twin_timeout", 8.0))
                 finally:
                     core._CUR[0] = None
             if model is not None:
